@@ -133,4 +133,23 @@ def mixedChannel (refs : List (Str × Str)) (tag text : Str) : Outcome Node :=
   | .reparseError => .reparseError
   | .unsupported w => .unsupported w
 
+/-! ## The character check of `validate_xml_document` (utils.py, run at the end of `Survey.xml()`) -/
+
+/-- `_validate_xml_chars`: `INVALID_XML_CHAR_REGEX = [^\t\n\r\u0020-\ud7ff\ue000-\ufffd\U00010000-\U0010ffff]`
+    finds nothing -/
+def validChars (s : Str) : Bool := s.all isXmlChar
+
+mutual
+/-- every text node and attribute value of the document passes `_validate_xml_chars` -/
+def charsValid : Node → Bool
+  | .text _ s => validChars s
+  | .elem _ a ks => a.all (fun kv => validChars kv.2) && charsValidKids ks
+def charsValidKids : List Node → Bool
+  | [] => true
+  | k :: ks => charsValid k && charsValidKids ks
+end
+
+/-- the document is handed out only when the check passes; otherwise PyXFormError -/
+def checkedDoc (n : Node) : Outcome Node := if charsValid n then .ok n else .pyxformError
+
 end Pyxv.Chan
